@@ -18,7 +18,7 @@ func main() {
 		prop   = flag.String("prop", "", "property id (C01..C20) or 'all'")
 		tier   = flag.String("tier", "quick", "quick|thorough")
 		outDir = flag.String("out", "/verif/evidence", "evidence directory")
-		known  = flag.String("known", "/verif/known_findings.json", "known findings file")
+		known  = flag.String("known", "/verif/known_findings.txt", "known findings file")
 		dump   = flag.String("dump", "", "debug: dump path conditions of the functions whose name contains this string")
 		inline = flag.Bool("inline", false, "debug: inline module callees when dumping")
 		list   = flag.Bool("list", false, "list rules")
